@@ -44,3 +44,12 @@ Theorem C03_mixed_linear : forall (primsA primsB : list (R * R)) (B2 : R -> R ->
       Rmult (Rmult (fst ca) (fst cb)) (eval2 B2 (snd ca) (snd cb) (D1 (snd ca) p (klm_at LA na)) (D1 (snd cb) q (klm_at LB nb)))) primsB)) primsA).
 Proof. exact mixed_linear. Qed.
 Print Assumptions C03_mixed_linear.
+
+From Coq Require Import Reals.
+From Coquelicot Require Import Coquelicot.
+From LV Require Import Base.Cart Deriv.DerivModel Deriv.DerivProofs Deriv.GaussDeriv.
+(* The rule applied twice is the second partial derivative of the primitive (Deriv/GaussDeriv.v). *)
+Theorem C03_formal_rule_twice_is_the_second_derivative : forall (a : R) (t : triple) (A x : vec3) (p q : nat), (p < 3)%nat -> (q < 3)%nat ->
+  is_derive (fun s => lc_eval a (D1 a q t) (vset p A s) x) (vget p A) (lc_eval a (Dlin a p (D1 a q t)) A x).
+Proof. exact D2_is_derivative. Qed.
+Print Assumptions C03_formal_rule_twice_is_the_second_derivative.
